@@ -30,11 +30,11 @@ var fz fuzzStores
 
 // FuzzCase is the replayable form of one fuzz input.
 type FuzzCase struct {
-	Type   string `json:"type"`
-	Data   string `json:"data"`
-	Sec    int64  `json:"sec"`
-	Nsec   int32  `json:"nsec"`
-	ZoneS  int32  `json:"zone_s"`
+	Type  string `json:"type"`
+	Data  string `json:"data"`
+	Sec   int64  `json:"sec"`
+	Nsec  int32  `json:"nsec"`
+	ZoneS int32  `json:"zone_s"`
 }
 
 func runFuzzCase(c *FuzzCase) *vkit.Outcome {
